@@ -1,5 +1,6 @@
 import StepModel.GenCxx
 import StepModel.RegistryModel
+import StepModel.GenCxxRules
 /-! Line-protocol driver for the exp2cxx / dictionary model (C02).  Input: one schema in the AST line protocol
 written by vlib/schema_gen_c02.py, terminated by `end`; output: the canonical dump in the format of
 harness/h_dict.cc, followed by the mangled names the accessor test needs.  Unknown lines answer `bad-op`. -/
@@ -83,6 +84,30 @@ def sortByKey (l : List (String × String)) : List (String × String) := l.foldl
 
 def sortStrs (l : List String) : List String := (sortByKey (l.map (fun x => (x, x)))).map (·.1)
 
+def hexDigit (n : Nat) : Char := if n < 10 then Char.ofNat (48 + n) else Char.ofNat (87 + n)
+
+def toHex (s : String) : String :=
+  String.ofList (s.toUTF8.toList.flatMap (fun b => [hexDigit (b.toNat / 16), hexDigit (b.toNat % 16)]))
+
+def hexVal (c : Char) : Option Nat :=
+  if c.isDigit then some (c.toNat - 48) else if 'a' ≤ c ∧ c ≤ 'f' then some (c.toNat - 87) else none
+
+def fromHexAux : List Char → Option (List UInt8)
+  | [] => some []
+  | a :: b :: rest => do
+    let x ← hexVal a
+    let y ← hexVal b
+    let r ← fromHexAux rest
+    pure (UInt8.ofNat (16 * x + y) :: r)
+  | _ => none
+
+def fromHex (s : String) : Option String :=
+  (fromHexAux s.toList).bind (fun l => String.fromUTF8? ⟨l.toArray⟩)
+
+/-- ` WR <i> <hex of the rule text>` / ` UR …` (entities), ` TWR …` (types) -/
+def dumpRules (tag : String) (l : List String) : List String :=
+  l.zipIdx.map (fun (t, i) => s!" {tag} {i} {toHex t}")
+
 def dumpEntity (d : DEntity) : String :=
   let head := s!"ENTITY {d.name} raw={outStr (prettyName (toIdent d.name))} abstract={b01 d.abstract} super={",".intercalate d.supers} sub={",".intercalate (sortStrs d.subs)}"
   let attrs := d.attrs.map (fun a => s!" ATTR {a.name} kind={dkind a.kind} opt={b01 a.opt} owner={a.owner} type={render a.type}")
@@ -140,8 +165,14 @@ def dumpNames (s : Schema) : List String :=
 
 def dumpAll (s : Schema) : String :=
   let d := dictOf s (s.entities.map (·.name))
-  let ents := sortByKey (d.entities.map (fun e => (e.name, dumpEntity e)))
-  let tys := sortByKey (d.types.map (fun t => (t.name, dumpType d.types t)))
+  let rulesOfE (n : String) : List String := match s.findE n with
+    | some e => (entityInits e).map (fun (n, t) => s!" DI {n} {toHex t}") ++ dumpRules "UR" (entityRules e).uniques ++ dumpRules "WR" (entityRules e).wheres
+    | none => []
+  let rulesOfT (n : String) : List String := match s.findT n with
+    | some t => dumpRules "TWR" (typeRules t).wheres
+    | none => []
+  let ents := sortByKey (d.entities.map (fun e => (e.name, "\n".intercalate (dumpEntity e :: rulesOfE e.name))))
+  let tys := sortByKey (d.types.map (fun t => (t.name, "\n".intercalate (dumpType d.types t :: rulesOfT t.name))))
   let insts := sortByKey (s.entities.filterMap (fun e => (dumpInst s e).map (fun l => (e.name, l))))
   let order := emissionOrder s (s.entities.map (·.name))
   "\n".intercalate (
@@ -175,6 +206,25 @@ def handle (s : Schema) (line : String) : Option Schema :=
         let a : Attr := { name := n, redecl := dash red, kind := k, optional := opt == "1", type := t,
                           invAttr := (dash inv).getD "" }
         some { s with entities := (({ e with attrs := e.attrs ++ [a] }) :: rest).reverse }
+    | _, _ => none
+  | ["ainit", hx] =>
+    match fromHex hx, s.entities.reverse with
+    | some t, e :: rest =>
+      match e.attrs.reverse with
+      | a :: as => some { s with entities := ({ e with attrs := ({ a with init := t } :: as).reverse } :: rest).reverse }
+      | [] => none
+    | _, _ => none
+  | ["twhere", lab, hx] =>
+    match fromHex hx, s.types.reverse with
+    | some ex, t :: rest => some { s with types := ({ t with wheres := t.wheres ++ [{ label := dash lab, expr := ex }] } :: rest).reverse }
+    | _, _ => none
+  | ["ewhere", lab, hx] =>
+    match fromHex hx, s.entities.reverse with
+    | some ex, e :: rest => some { s with entities := ({ e with wheres := e.wheres ++ [{ label := dash lab, expr := ex }] } :: rest).reverse }
+    | _, _ => none
+  | ["eunique", lab, hxs] =>
+    match (hxs.splitOn ";").mapM fromHex, s.entities.reverse with
+    | some as, e :: rest => some { s with entities := ({ e with uniques := e.uniques ++ [{ label := dash lab, attrs := as }] } :: rest).reverse }
     | _, _ => none
   | _ => none
 
